@@ -647,8 +647,9 @@ def run(tier, seed):
         + ["numpy tensordot / moveaxis and discopy.tensor.Functor are the evaluator of the semantic oracle "
            "(integer data, exactness re-checked per array); not verified"],
         assumptions=[
-            "semantic soundness (same morphism under every rigid functor into tensors) is NOT proved in Coq: "
-            "it is checked by the oracle on every yielded step under two random integer tensor functors",
+            "semantic soundness is proved in Coq for the model (Props/C07.v: unsnake_sound, snake_removal_sound, "
+            "rigid_normal_form_sound, in every strict monoidal category with snake equations); on the implementation "
+            "it is checked independently by the oracle on every yielded step under two random integer tensor functors",
             "totality (no InterchangerError / IndexError from unsnake on well-typed input) is proved only for "
             "obstruction-free snakes; the general statement is kept as snake_removal_total_stmt and checked "
             "by the oracle (exception class) on every generated case",
